@@ -847,8 +847,17 @@ impl PxWorld {
             }
         }
         self.oracle_state(tr, &site, &post);
-        if burned.is_some() {
+        if let Some((bk, _)) = &burned {
             tr.count("branch.locked_burned");
+            if self.unlock_of(*bk) < self.epoch {
+                tr.count("branch.locked_burned_after_unlock_epoch");
+            }
+        }
+        if !parse_pays(w.get(6).unwrap_or(&"-")).is_empty() && w[0] == "addLiq" {
+            tr.count("branch.addLiq_with_merge");
+        }
+        if (w[0] == "enterL" || w[0] == "enterW") && !parse_pays(w.get(4).unwrap_or(&"-")).is_empty() {
+            tr.count("branch.enter_with_merge");
         }
         if w[0] == "removeLiq" && post.u_base[ui] > pre.u_base[ui] {
             tr.count("branch.surplus_base_paid");
